@@ -5,34 +5,43 @@ _c12 = importlib.util.module_from_spec(_s); _s.loader.exec_module(_c12)
 
 ID = "C42"
 LEVEL = "model_checking"
-TECHNIQUE = ("CBMC bounded symbolic execution of event_tagging.c + buffer.c (real code, MIN_BUFFER_SIZE scaled to 64): (a) marshal one item with "
-             "every value solver-chosen, compare the wire bytes with the reference encoder ref/tag_ref.h, unmarshal and compare; (b) one decoder on an "
-             "arbitrary byte string split at a solver-chosen point over two exact-size evbuffer_add_reference chains, cbmc pointer checks + reference parser")
+TECHNIQUE = ("CBMC bounded symbolic execution of event_tagging.c (real code) in two compositions: (m_*) over the evbuffer CONTRACT model "
+             "env/evbuf_contract.h (byte string ref/bytes.h + worst-case pullup: a fresh object of exactly the requested size, released by the next "
+             "modification) with every size symbolic -- all round trips over all values and every decoder on every byte string; (r_*) over the REAL "
+             "buffer.c (64-byte chains): encoders/marshallers, evtag_decode_tag, evtag_peek, decode_int(64)_internal and single-chain "
+             "evtag_decode_int(64), the data-dependent sizes split into classes whose concrete sizes are asserted equal to what event_tagging.c "
+             "requests; arbitrary bytes live in two exact-size evbuffer_add_reference chains. Oracle: reference codec ref/tag_ref.h + cbmc pointer checks")
 UNITS = ["event_tagging.c", "buffer.c", "include/event2/tag.h"]
 FUNCTIONS = ["evtag_encode_int", "evtag_encode_int64", "evtag_decode_int", "evtag_decode_int64", "evtag_encode_tag", "evtag_decode_tag", "decode_tag_internal",
              "decode_int_internal", "decode_int64_internal", "encode_int_internal", "encode_int64_internal", "evtag_peek", "evtag_peek_length",
              "evtag_payload_length", "evtag_unmarshal_header", "evtag_consume", "evtag_marshal", "evtag_marshal_buffer", "evtag_unmarshal",
              "evtag_marshal_int", "evtag_unmarshal_int", "evtag_marshal_int64", "evtag_unmarshal_int64", "evtag_marshal_string", "evtag_unmarshal_string",
-             "evtag_marshal_timeval", "evtag_unmarshal_timeval", "evtag_unmarshal_fixed", "evbuffer_pullup", "evbuffer_add", "evbuffer_drain", "evbuffer_remove",
+             "evtag_marshal_timeval", "evtag_unmarshal_timeval", "evtag_unmarshal_fixed", "evbuffer_pullup", "evbuffer_add", "evbuffer_drain",
              "evbuffer_add_reference"]
-BOUNDS = ("round trips: ALL 2^32 tags, ALL 32-bit and ALL 64-bit integers, all timevals with 0 <= tv_sec < 2^32 and 0 <= tv_usec < 10^6, strings and raw "
-          "payloads of length <= 4 (any bytes), item stored at buffer offset 0 and at offset 13 of a 16-byte chain (straddling the chain boundary); "
-          "decoders: every byte string of length <= 12 (quick 10) in every split over two reference chains")
-OUT = ("strings/payloads longer than 4 bytes, payloads >= 2^31 (evtag_unmarshal_header returns the uint32 length as int), allocation failure inside the decoders "
-       "(decode_int_internal adds the offset to a NULL pullup result before testing it), production chain size, reads beyond the pulled-up prefix but inside "
-       "a library-allocated chain (harmless slack; only reads outside user-provided exact-size memory are detected), more than two items in a row")
+BOUNDS = ("round trips (m_*): ALL 2^32 tags, ALL 32-bit and ALL 64-bit integers, all timevals with 0 <= tv_sec < 2^32 and 0 <= tv_usec < 10^6, strings and raw "
+          "payloads of length <= 4 (any bytes), two items in a row; decoders (m_*): every byte string of length <= 12 (quick 10). Real evbuffers (r_*): same "
+          "value ranges for encoders (item at buffer offset 0, 13, 15 of a 16-byte chain; encoded tag sizes 1..5, quick {1,2,5}); leaf decoders on every byte "
+          "string of length <= 8 (tags), <= 7 / <= 9 (32-bit integers at offset 0 / 2), <= 11 (64-bit integers) in every split over two exact-size reference chains (quick: one length per decoder, 6..8)")
+OUT = ("strings/payloads longer than 4 bytes, payloads >= 2^31 (evtag_unmarshal_header returns the uint32 length as int), timevals outside the 32-bit wire "
+       "format (tv_sec is truncated to 32 bits by evtag_marshal_timeval), allocation failure inside the decoders (decode_int_internal adds the offset to a NULL "
+       "pullup result before testing it), production chain size, the multi-stage unmarshallers ON REAL evbuffers (a state merge behind a decoder's early "
+       "return followed by another evbuffer call does not finish under symex: they are decided over the contract model, whose conformance to buffer.c is C12), "
+       "more than two items in a row")
 TEXT = ("Every tag / integer / timeval / short string / raw item marshalled with solver-chosen values is byte-for-byte the reference wire encoding, is reported "
         "by the peek functions without being consumed, and is returned unchanged with the same tag and length by the matching decoder, leaving the buffer empty. "
-        "For every byte string within the bound, in every two-chain split, each decoder stays inside the data and, when it succeeds, has consumed exactly the "
-        "one well-formed item the reference parser sees, with the same values; the remaining bytes are intact.")
-NOTE = ("Trusted: cbmc 6.11, env/evbuf_alloc.h + env/evbuf_copy.h, ref/tag_ref.h (written from the format comment of event_tagging.c; the comment's "
-        "'big-endian nibble order' is wrong, the model follows the wire), LP64. Assert-enabled encoding; NDEBUG twins in the thorough tier. "
-        "Finding KF-C42-tag-overread is isolated in obligation dec_tag_kf6 / dec_peek_kf6 (fails on the unpatched tree, passes with fixes/C42-tag-overread.diff).")
-ASSUMPTIONS = ["library heap objects have the literal size VP_OBJ=160 (requests <= 160 asserted); user data of the decoder obligations lives in exact-size objects",
-               "memcpy/memmove are the byte loops of env/evbuf_copy.h", "locking disabled, no callbacks", "allocation never fails",
+        "For every byte string within the bound each decoder reads only bytes it made contiguous (and only inside the data), and when it succeeds it has consumed "
+        "exactly the one well-formed item the reference parser sees, with the same values; the remaining bytes are intact.")
+NOTE = ("Trusted: cbmc 6.11, env/evbuf_contract.h (justified by C12), env/evbuf_alloc.h + env/evbuf_copy.h, ref/tag_ref.h (written from the format comment of "
+        "event_tagging.c; the comment's 'big-endian nibble order' is wrong, the model follows the wire), LP64. Assert-enabled encoding. "
+        "Finding KF-C42-tag-overread is isolated in obligations m_dec_tag_kf6/m_dec_peek_kf6/r_dec_tag_kf6/r_dec_peek_kf6 (fail on the unpatched tree, pass "
+        "with fixes/C42-tag-overread.diff).")
+ASSUMPTIONS = ["m_*: evbuffer_add/drain/remove/pullup/get_length behave as include/event2/buffer.h documents (env/evbuf_contract.h); pullup sizes <= 16",
+               "r_*: library heap objects have the literal size VP_OBJ=160; memcpy/memmove are the byte loops of env/evbuf_copy.h; evbuffer_decref_and_unlock_ and "
+               "evbuffer_file_segment_free are replaced by stubs that ASSERT they are unreachable (no multicast/file chains, no evbuffer_free)",
+               "locking disabled, no callbacks", "allocation never fails",
                "timeval round trip: 0 <= tv_sec < 2^32, 0 <= tv_usec < 10^6 (the wire format stores two unsigned 32-bit integers)",
                "strings contain no NUL before their end"]
-DESIGN_REF = "DESIGN.md §5 C42, §3.3"
+DESIGN_REF = "DESIGN.md §5 C42, §3.3, §3.4, §3.8"
 
 VP_OBJ = 160
 HM = "C42_tagmodel.c"      # event_tagging.c over the evbuffer contract model (all sizes symbolic)
@@ -119,7 +128,7 @@ def obligations(tier):
     if tier == "quick":
         plan = {"TAG": [7], "PEEK": [7], ("INTI", 0): [6], ("INT64I", 0): [8], ("INTI", 2): [8]}
     else:
-        plan = {"TAG": range(0, 13), "PEEK": range(0, 13), ("INTI", 0): range(0, 13), ("INT64I", 0): range(0, 13), ("INTI", 2): range(0, 13)}
+        plan = {"TAG": range(0, 9), "PEEK": range(0, 9), ("INTI", 0): range(0, 8), ("INT64I", 0): range(0, 12), ("INTI", 2): range(0, 10)}
     for key, lens in plan.items():
         for wl in lens:
             for wk in range(0, wl + 1):
